@@ -336,6 +336,30 @@ def escape_cases(rng, acc, d):
             except ValueError:
                 pass
             (base / where).unlink()
+    # link TEXT with '..' after a component that is itself a symlink to a directory: 'X/..' is where X points to, not lexical
+    base = d / "dl" / "root"
+    (base / "sub" / "deep").mkdir(parents=True)
+    (base / "sub" / "x.txt").write_bytes(b"x")
+    (base / "x.txt").write_bytes(b"other")
+    (d / "dl" / "secret.txt").write_bytes(b"s")
+    (base / "sub" / "up").symlink_to("..")            # in-directory link to root
+    (base / "dlink").symlink_to("sub/deep")           # in-directory link to a nested directory
+    cases = {"via-up-escape": ("lnk1", "sub/up/../secret.txt", "escape"),      # really root/../secret.txt
+             "via-dlink-inside": ("lnk2", "dlink/../x.txt", "symlink:sub/x.txt")}  # really sub/x.txt, NOT x.txt
+    for cname, (lname, text, want) in cases.items():
+        (base / lname).symlink_to(text)
+        acc.case(["escape-dirlink", cname], nontrivial=True)
+        acc.count("escape_checks")
+        try:
+            t = dir_hashsums(base)
+            if want == "escape":
+                acc.violation("escape-accepted:through-dirlink", f"link text {text!r} really leads outside ({lname}) but was accepted: {t.get(lname)}", {"kind": "escape", "name": cname})
+            elif t.get(lname) != want:
+                acc.violation("link-target-lexical", f"link text {text!r} recorded as {t.get(lname)!r}, it really leads to {want!r}", {"kind": "escape", "name": cname})
+        except ValueError:
+            if want != "escape":
+                acc.violation("inside-link-rejected", f"in-directory link {text!r} rejected", {"kind": "escape", "name": cname})
+        (base / lname).unlink()
     # control: link with '..' that stays inside is accepted
     base = d / "in-ok"
     (base / "sub").mkdir(parents=True)
